@@ -16,6 +16,8 @@ func dispatchMore(cmd string, args []string) bool {
 		keysCollide()
 	case "keys-inject":
 		keysInject()
+	case "keys-concurrent":
+		keysConcurrent()
 	default:
 		return false
 	}
